@@ -39,6 +39,58 @@ def body_bytes(n):
     return bytes(65 + (i % 57) for i in range(n))
 
 
+def wire_of(case, body):
+    """(extra header lines, bytes after the head) for the POST body: content coding, then framing"""
+    import zlib
+    coding = case.get("coding", "")
+    data = body
+    hdr = b""
+    if coding == "gzip":
+        co = zlib.compressobj(6, zlib.DEFLATED, 31); data = co.compress(body) + co.flush()
+        hdr += b"Content-Encoding: gzip\r\n"
+    elif coding == "deflate":
+        data = zlib.compress(body)
+        hdr += b"Content-Encoding: deflate\r\n"
+    if case.get("framing", "length") == "chunked":
+        k = max(1, case.get("chunk", 16))
+        out = bytearray()
+        for i in range(0, len(data), k):
+            piece = data[i:i + k]
+            out += b"%x\r\n" % len(piece) + piece + b"\r\n"
+        out += b"0\r\n\r\n"
+        return hdr + b"Transfer-Encoding: chunked\r\n", bytes(out)
+    return hdr + b"Content-Length: %d\r\n" % len(data), data
+
+
+def gen_kept_back(rng, i):
+    """the payload parser keeps input back while reading is paused: one read carries a body several times the
+    high-water mark as many HTTP chunks and/or as a content-coded (gzip/deflate) body that expands far above
+    it; the handler drains in steps below the low-water mark, so every resume re-enters the parser, which
+    refills the stream and pauses again from inside resume_reading()"""
+    from aiohttp.web_protocol import MAX_MSG_QUEUE_SIZE as Q
+    rb = rng.choice([16, 16, 64, 256])
+    high = 2 * rb
+    coding = rng.choice(["", "", "gzip", "deflate"])
+    framing = "chunked" if (coding == "" or rng.random() < 0.5) else "length"
+    total = rng.choice([6, 12, 24, 40]) * high + rng.randint(0, 5)
+    if coding:
+        total *= rng.choice([1, 4])
+    case = {"kind": "server", "rb": rb, "n_get": rng.choice([0, 0, 1, Q // 2, Q - 1]), "total": total,
+            "framing": framing, "coding": coding, "chunk": rng.choice([1, rb // 2, rb, rb, high]),
+            "reader": rng.choice(["small-n", "small-n", "all-n", "chunks", "all", "line"]),
+            "split_head": False}
+    _, wire = wire_of(case, body_bytes(total))
+    w = len(wire)
+    first = rng.choice([w, w, w - 5 if w > 5 else w, max(1, w // 2), max(1, w - 1)])
+    case["first"] = first
+    todo = ["rel:%d" % rng.choice([1, Q // 2, Q])] * rng.randint(0, 2) + ["post-go"]
+    rest = w - first
+    while rest > 0:
+        k = min(rng.choice([1, 5, rb, w]), rest); todo.append("data:%d" % k); rest -= k
+    case["steps"] = todo + ["rel:%d" % (case["n_get"] + 2)]
+    return case
+
+
 def gen_case(rng, i):
     rb = rng.choice([16, 16, 64, 256])
     from aiohttp.web_protocol import MAX_MSG_QUEUE_SIZE as Q
@@ -74,6 +126,12 @@ DIRECTED = [
      "steps": ["rel:16", "rel:16", "post-go"]},
     {"kind": "server", "rb": 64, "n_get": 31, "total": 1000, "first": 129, "reader": "all", "split_head": False,
      "steps": ["rel:40", "data:500", "post-go", "data:371"]},
+    # parser keeps input back: 24 chunks of 16 bytes in one read, limit 16, handler reads 8 at a time
+    {"kind": "server", "rb": 16, "n_get": 0, "total": 384, "first": 10 ** 6, "reader": "small-n", "split_head": False,
+     "framing": "chunked", "coding": "", "chunk": 16, "steps": ["post-go"]},
+    # gzip body expanding far above high water, Content-Length framing
+    {"kind": "server", "rb": 16, "n_get": 0, "total": 2000, "first": 10 ** 6, "reader": "small-n", "split_head": False,
+     "framing": "length", "coding": "gzip", "steps": ["post-go"]},
     # body only: plain StreamReader back-pressure through the real parser
     {"kind": "server", "rb": 16, "n_get": 0, "total": 200, "first": 33, "reader": "all-n", "split_head": False,
      "steps": ["post-go", "data:100", "data:67"]},
@@ -97,6 +155,8 @@ def run(case):
         st = {"done": 0, "post": None, "read": bytearray(), "post_done": False, "post_err": None, "blocked": False}
         body = body_bytes(case["total"])
 
+        hook = [lambda where: None]
+
         async def handler(request):
             if request.method == "POST":
                 st["post"] = request
@@ -113,9 +173,24 @@ def run(case):
                             d = await c.read(case["rb"])
                             if not d: break
                             st["read"] += d
+                            hook[0]("in-handler-read")
+                    elif how == "small-n":
+                        # below the low-water mark: the limits are not raised by the read size
+                        while True:
+                            d = await c.read(max(1, case["rb"] // 2))
+                            if not d: break
+                            st["read"] += d
+                            hook[0]("in-handler-read")
+                    elif how == "line":
+                        while True:
+                            d = await c.readuntil(b"A", max_size=10 ** 9)
+                            if not d: break
+                            st["read"] += d
+                            hook[0]("in-handler-read")
                     elif how == "chunks":
                         async for d in c.iter_any():
                             st["read"] += d
+                            hook[0]("in-handler-read")
                 except Exception as e:  # noqa
                     st["post_err"] = type(e).__name__
                 st["post_done"] = True
@@ -128,8 +203,10 @@ def run(case):
         proto = server()
         tr = Tr()
         proto.connection_made(tr)
-        head = b"POST /p HTTP/1.1\r\nHost: a\r\nContent-Length: %d\r\n\r\n" % case["total"]
-        sent = 0                       # body bytes handed to data_received
+        hdr, wire = wire_of(case, body)
+        head = b"POST /p HTTP/1.1\r\nHost: a\r\n" + hdr + b"\r\n"
+        wtotal = len(wire)
+        sent = 0                       # wire bytes of the body handed to data_received
 
         async def settle():
             last = None
@@ -163,11 +240,13 @@ def run(case):
                 if r.is_eof():
                     continue
                 low, high = r.get_read_buffer_limits()
-                buffered = r.total_bytes - len(st["read"])
+                # bytes in the stream's buffer (a parked readuntil() holds its partial line outside of it)
+                buffered = r._size
                 if buffered > high:
                     info["max_buffered_over_high"] = max(info["max_buffered_over_high"], buffered - high)
                     if not tr.paused:
-                        v("C08/backpressure/not-paused-above-high-water/server-connection",
+                        v("C08/backpressure/not-paused-above-high-water/server-connection/"
+                          + ("stream-flag-still-set" if proto._reading_paused else "stream-flag-cleared"),
                           f"{where}: body stream holds {buffered} unread bytes > high water {high}, "
                           f"_reading_paused={proto._reading_paused} _msg_queue_paused={proto._msg_queue_paused}, "
                           f"but the transport is reading (calls {''.join(tr.calls)})")
@@ -175,7 +254,7 @@ def run(case):
             if st["post"] is not None and not st["post_done"] and post_go.is_set():
                 c = st["post"].content
                 w = getattr(c, "_waiter", None)
-                if w is not None and not w.done() and sent < case["total"] and tr.paused:
+                if w is not None and not w.done() and sent < wtotal and tr.paused:
                     v("C08/stuck-pause/server-connection",
                       f"{where}: handler parked on the empty body buffer ({len(st['read'])} of {case['total']} read, "
                       f"{sent} delivered) with the transport paused (_reading_paused={proto._reading_paused} "
@@ -184,8 +263,10 @@ def run(case):
         def deliver(data, where):
             proto.data_received(data)
 
+        hook[0] = check
+
         gets = GET * case["n_get"]
-        first = body[:case["first"]]
+        first = wire[:case["first"]]
         if case.get("split_head"):
             deliver(gets, "gets"); await settle(); check("after-gets")
             if tr.paused:
@@ -214,9 +295,9 @@ def run(case):
                 progressed = False
                 if pending_head is not None:
                     deliver(pending_head, "post-head"); sent = len(first); pending_head = None; progressed = True
-                elif queue and sent < case["total"]:
+                elif queue and sent < wtotal:
                     k = queue.pop(0)
-                    deliver(body[sent:sent + k], "body"); sent += k; progressed = True
+                    deliver(wire[sent:sent + k], "body"); sent += k; progressed = True
                 if progressed:
                     await settle()
                     check("after-delivery")
@@ -231,9 +312,9 @@ def run(case):
                 break
             if pending_head is not None:
                 deliver(pending_head, "post-head"); sent = len(first); pending_head = None
-            elif sent < case["total"]:
-                k = queue.pop(0) if queue else case["total"] - sent
-                deliver(body[sent:sent + k], "body"); sent += k
+            elif sent < wtotal:
+                k = queue.pop(0) if queue else wtotal - sent
+                deliver(wire[sent:sent + k], "body"); sent += k
             else:
                 break
             check("drain")
@@ -241,15 +322,17 @@ def run(case):
         got = bytes(st["read"])
         if got != body[:len(got)]:
             v("C08/delivery/reordered-or-corrupt/server-connection", f"handler read {got[:24]!r}…, sent {body[:24]!r}…")
-        if case["reader"] in ("all", "all-n", "chunks") and st["post_err"] is None and proto.transport is not None:
+        if case["reader"] in ("all", "all-n", "small-n", "line", "chunks") and st["post_err"] is None and proto.transport is not None:
             if st["post_done"] and got != body:
                 v("C08/eof/reported-before-all-data/server-connection",
                   f"handler finished reading with {len(got)} of {case['total']} body bytes")
-            elif not st["post_done"] and st["post"] is not None and (sent < case["total"] or pending_head is not None) and tr.paused:
+            elif not st["post_done"] and st["post"] is not None and (sent < wtotal or pending_head is not None) and tr.paused:
                 v("C08/stuck-pause/server-connection/final",
                   f"quiescent: handler has {len(got)} of {case['total']} bytes, {sent} delivered, transport paused "
                   f"(_reading_paused={proto._reading_paused} _msg_queue_paused={proto._msg_queue_paused})")
         info["read"] = len(got); info["sent"] = sent; info["post_done"] = st["post_done"]
+        info["post_err"] = st["post_err"]
+        info["pauses"] = tr.calls.count("P")
         info["handlers_done"] = st["done"]
         proto.connection_lost(None)
         await asyncio.sleep(0)
